@@ -222,6 +222,33 @@ with overflow checks. Outcome must be ok/err; `load` outcomes are also compared 
         let (stream, case) = adversarial(&mut r, i);
         cases.push((stream, case, c.cur));
     }
+    // systematic products of SMALL values (zero / negative / missing / odd-length) in the fields of cross-reference streams and object
+    // streams: guards in the code are conjunctions over several fields (all widths zero AND some count positive, …), which independent
+    // random extremes almost never satisfy together
+    {
+        let ws = ["[0 0 0]", "[1 0 0]", "[0 1 0]", "[0 0 1]", "[1 2 1]", "[0 0]", "[]", "[1 1 1 1]", "[-1 0 0]", "[0 0 0 0]"];
+        let idxs = ["", "/Index[]", "/Index[0 0]", "/Index[0 -1]", "/Index[3 0 9 0]", "/Index[0 1]", "/Index[0 2]", "/Index[5]", "/Index[0 0 0 1]", "/Index[-1 1]", "/Index[4294967295 1]", "/Index[0 1 0 1]", "/Index[0 0 0 0 0 0]", "/Index[1 -9223372036854775808]"];
+        let sizes = ["/Size 0", "/Size 1", "/Size 2", "", "/Size -1"];
+        let bodies: [&[u8]; 3] = [b"", b"\x01\x00\x09", b"\x01\x00\x10\x00\x01\x00\x20\x00"];
+        let mut k = 0u64;
+        for w in ws { for ix in idxs { for sz in sizes { for body in bodies {
+            k += 1;
+            if c.quick() && !(w.contains("0 0") || k % 3 == 0) { continue; }
+            let Some(_r) = c.case("xrefstream-systematic", k) else { continue };
+            let f = format!("%PDF-1.5\n1 0 obj\n<</Type/Catalog>>\nendobj\n2 0 obj\n<</Type/XRef{}/W{}{}/Root 1 0 R/Length {}>>\nstream\n", sz, w, ix, body.len());
+            let mut b = f.into_bytes(); b.extend_from_slice(body); b.extend_from_slice(b"\nendstream\nendobj\nstartxref\n41\n%%EOF");
+            cases.push(("xrefstream-systematic".into(), format!("L {}", hex_tok(&b)), c.cur));
+        } } } }
+        let firsts = ["0", "1", "4", "8", "9", "100", "-1"];
+        let ns = ["0", "1", "2", "-1", "3"];
+        let contents: [&[u8]; 6] = [b"", b"5 0 (x)", b"5 0 6 0 [1 2]", b"5 0 6 3 1 2 3", b"5 0 5 0 5 0 true", b"5 9 6 99 7 0 <<>>"];
+        k = 0;
+        for fi in firsts { for n in ns { for ct in contents {
+            k += 1;
+            let Some(_r) = c.case("objstm-systematic", k) else { continue };
+            cases.push(("objstm-systematic".into(), format!("O D3 {} N{} {} i{} {} i{} ; {}", hex(b"Type"), hex(b"ObjStm"), hex(b"First"), fi, hex(b"N"), n, hex_tok(ct)), c.cur));
+        } } }
+    }
     // fixed regression witnesses (repaired defects); reported through c.witness below
     let witnesses: Vec<(&str, String, &str)> = vec![
         ("F-C04-a", format!("F ASCII85Decode ; {}", hex_tok(b"s8W-\"~>")), "ASCII85 group value overflow"),
